@@ -97,6 +97,16 @@ CHECKS = {
          "lane), and lane-moving conversions (extend/truncate, tuple pairs, Vec3<->Vec3A, Quat<->Vec4, masks) on tokens bit-for-bit."),
    note="Trusted: TLC, Big/Ieee modules (cross-checked against the Rust `as` cast on every lane: disagreement = tool error), gen_conv.py source scan. Not decided: all 2^32 f32 patterns.",
    ref="5 (C14)"),
+ "C08": dict(
+   technique="TLA+ typed register machine with hidden-lane taint (self-composition invariant), TLC enumeration of all two-step programs, each executed once per hidden payload with bit-identical observations required",
+   text=("MC_C08 models Vec3A/Mat3A/Affine3A/BVec3A registers whose hidden lane is copy/injected/garbage; no operation of the "
+         "specification can read it, which is the self-composition invariant. TLC enumerates every well-typed program of two steps over 99 "
+         "operations; the harness executes each program under 12 hidden payloads (0.5, MAX, +-inf, quiet/signalling NaN, all-ones, -0, "
+         "subnormal, +-1000, copy of z) injected through every public route, and after every step requires ~400 observation words "
+         "(all accessors, reductions, comparisons, mask queries, conversions, products, inverses, Debug/Display of all registers) to be "
+         "bit-identical across payloads, in sse2 (debug+release) and core-simd builds."),
+   note="Trusted: TLC, harness hid.rs. Oracle = agreement across payload runs; absolute values are decided by C01/C03/C06/C15/C16.",
+   ref="5 (C08)"),
 }
 
 PENDING = {}
